@@ -151,3 +151,73 @@ func verifAnswerStep(fixedOp int) {
 		verifrt.Reach("touch-uncapped", now+int64(msgTimeout) < capAt)
 	}
 }
+
+// Fan-out: every channel of a topic owns its OWN message object (owner, attempts, deadline and heap
+// index live in it; a shared object would make one channel's delivery state leak into another's).
+func VerifC02_FanOutOwnsItsMessage() { verifTopicPumpFanOut() }
+
+// A consumer answer racing the timeout scan for the SAME, expired message (two threads, every
+// interleaving within the preemption bound, from any valid state with 1-2 messages in flight):
+// exactly one of them wins. An accepted FIN leaves the message in no store (it is never delivered
+// again); otherwise (answer refused, or REQ/TOUCH accepted) it is in exactly one store; the
+// consumer's in-flight count equals the messages it holds and is never negative; the channel's
+// timeout counter counts exactly the messages the scan put back; structures stay consistent.
+func VerifC02_AnswerVsScan() { verifAnswerVsScan() }
+
+func verifAnswerVsScan() {
+	o := verifOpts()
+	o.MemQueueSize = 4
+	var st *verifChan
+	var cl *clientV2
+	var target *Message
+	op := verifrt.Choice("op", 3)
+	tag := []string{"FIN", "REQ0", "TOUCH"}[op]
+	var t int64
+	var preTimeouts uint64
+	verifrt.Atomic(func() {
+		verifConcreteIDs, verifIDSeq = true, 0
+		st = verifNewChan(o, "ch")
+		cl = st.addClient(1)
+		st.populate(verifrt.Choice("nF", 2)+1, 0, 0, 0, 1)
+		target = st.inFlight[0]
+		t = verifrt.Int64("scan-t")
+		verifrt.Assume(t >= target.pri && t <= 3400000000000000000) // the answered message has expired
+		preTimeouts = st.c.timeoutCount
+	})
+	p := &protocolV2{nsqd: st.n}
+	id := target.ID
+	var err error
+	verifrt.Go("answer", func() {
+		switch op {
+		case 0:
+			_, err = p.FIN(cl, [][]byte{[]byte("FIN"), id[:]})
+		case 1:
+			_, err = p.REQ(cl, [][]byte{[]byte("REQ"), id[:], []byte("0")})
+		case 2:
+			_, err = p.TOUCH(cl, [][]byte{[]byte("TOUCH"), id[:]})
+		}
+	})
+	verifrt.Go("scan", func() { st.c.processInFlightQueue(t) })
+	verifrt.Join()
+	st.assertInvariants(tag + ":quiescent")
+	w := st.locate(id)
+	if op == 0 && err == nil {
+		verifrt.Assert(w.total() == 0 && w.heap == 0, tag+":accepted-fin-leaves-the-message-in-no-store")
+	} else {
+		verifrt.Assert(w.total() == 1, tag+":message-is-in-exactly-one-store")
+	}
+	verifrt.Assert(cl.InFlightCount >= 0, tag+":consumer-in-flight-count-not-negative")
+	verifrt.Assert(cl.InFlightCount == int64(len(st.c.inFlightMessages)), tag+":consumer-in-flight-count-equals-messages-it-holds")
+	// every message is accounted for once: still in flight, or finished, or back on the queue
+	requeued := uint64(0)
+	for _, m := range st.inFlight {
+		x := st.locate(m.ID)
+		verifrt.Assert(x.total() <= 1, tag+":no-message-duplicated")
+		if x.memory+x.backend == 1 && !(op == 1 && err == nil && m.ID == id) {
+			requeued++
+		}
+	}
+	verifrt.Assert(st.c.timeoutCount == preTimeouts+requeued, tag+":timeout-counter-counts-exactly-the-timed-out-messages")
+	verifrt.Reach(tag+":answer-accepted", err == nil)
+	verifrt.Reach(tag+":answer-refused", err != nil)
+}
